@@ -25,7 +25,7 @@ MUTATORS = ['ortho_left', 'ortho_right', 'ortho', 'ortho_trunc', 'transpose_ow',
 
 def tasks(tier, seed):
     out = []
-    n = 150 if tier == 'quick' else 1500
+    n = 150 if tier == 'quick' else common.thorough(1500)
     for k in range(n):
         out.append(('vt.props.c06', 't3_history', {'seed': seed, 'k': k, 'backend': 'T3', 'steps': 14, 'sig': 'history'}))
     k = n
